@@ -69,9 +69,10 @@ var lpEntries = []string{
 }
 
 type lpType struct {
-	kind string // named | map | slice | mutex | rwmutex | other
-	ref  string // pkg.Type for named
+	kind string // named | map | slice | chan | mutex | rwmutex | other
+	ref  string // pkg.Type for named; the element class for chan
 	elem *lpType
+	key  *lpType // map key type
 }
 
 type lpStruct struct {
@@ -113,6 +114,9 @@ type lpCtx struct {
 	funcList []string
 	bodies   map[string]*lpProg
 	sends    []string
+	sendCls  []string // class (element type) of the channel of each send site, "" when unknown
+	closes   []string
+	closeCls []string
 	labelN   int
 	queue    []string
 	err      error
@@ -177,7 +181,7 @@ func (c *lpCtx) prune() {
 	var scan func(p *lpProg, k string) (bool, bool)
 	scan = func(p *lpProg, k string) (ev bool, pn bool) {
 		switch p.kind {
-		case "op", "defer", "send":
+		case "op", "defer", "send", "close":
 			return true, false
 		case "panic":
 			return false, true
@@ -312,6 +316,16 @@ func (c *lpCtx) prune() {
 		renum(c.bodies[k])
 	}
 	c.funcList, c.funcID = list, newID
+}
+
+// analysedClass: is the channel element a type of one of the analysed packages?
+func analysedClass(cls string) bool {
+	i := strings.Index(cls, ".")
+	if i <= 0 {
+		return false
+	}
+	_, ok := lpDirs[cls[:i]]
+	return ok
 }
 
 func mentionsBrk(p *lpProg, l int) bool {
@@ -529,13 +543,37 @@ func (c *lpCtx) typeExpr(pkg string, file *ast.File, e ast.Expr) *lpType {
 			}
 		}
 	case *ast.MapType:
-		return &lpType{kind: "map", elem: c.typeExpr(pkg, file, x.Value)}
+		return &lpType{kind: "map", elem: c.typeExpr(pkg, file, x.Value), key: c.typeExpr(pkg, file, x.Key)}
+	case *ast.ChanType:
+		return &lpType{kind: "chan", ref: c.chanClass(pkg, file, x.Value)}
 	case *ast.ArrayType:
 		return &lpType{kind: "slice", elem: c.typeExpr(pkg, file, x.Elt)}
 	case *ast.IndexExpr: // generic instantiation T[X]
 		return c.typeExpr(pkg, file, x.X)
 	}
 	return &lpType{kind: "other"}
+}
+
+// chanClass names the element type of a channel: pkg.Type for types of the analysed packages,
+// the plain spelling otherwise (bool, error, []byte ...).
+func (c *lpCtx) chanClass(pkg string, file *ast.File, e ast.Expr) string {
+	switch x := e.(type) {
+	case *ast.StarExpr:
+		return c.chanClass(pkg, file, x.X)
+	case *ast.Ident:
+		if _, ok := c.structs[pkg+"."+x.Name]; ok || c.ifaces[pkg+"."+x.Name] {
+			return pkg + "." + x.Name
+		}
+		return x.Name
+	case *ast.SelectorExpr:
+		if id, ok := x.X.(*ast.Ident); ok {
+			if p := c.imports[file][id.Name]; p != "" {
+				return p + "." + x.Sel.Name
+			}
+			return id.Name + "." + x.Sel.Name
+		}
+	}
+	return exprString(e)
 }
 
 // fieldType finds field f of struct ref (promoted through embedded structs, one level).
@@ -635,6 +673,7 @@ type lpFn struct {
 	labels   map[string][2]int // label -> (break label, continue label)
 	nLit     int
 	nSend    int
+	nClose   int
 }
 
 func (c *lpCtx) translateFunc(f *lpFunc) *lpProg {
@@ -739,6 +778,11 @@ func (t *lpFn) typeOf(e ast.Expr) *lpType {
 			return tx.elem
 		}
 	case *ast.CallExpr:
+		if id, ok := x.Fun.(*ast.Ident); ok && id.Name == "make" && len(x.Args) >= 1 {
+			if _, shadow := t.env[id.Name]; !shadow {
+				return c.typeExpr(t.f.pkg, t.f.file, x.Args[0])
+			}
+		}
 		if f := t.callee(x); f != nil && f.decl != nil && f.decl.Type.Results != nil && len(f.decl.Type.Results.List) > 0 {
 			return c.typeExpr(f.pkg, f.file, f.decl.Type.Results.List[0].Type)
 		}
@@ -847,8 +891,18 @@ func exprString(e ast.Expr) string {
 		return exprString(x.X) + "[..]"
 	case *ast.StarExpr:
 		return "*" + exprString(x.X)
+	case *ast.ArrayType:
+		return "[]" + exprString(x.Elt)
+	case *ast.MapType:
+		return "map[" + exprString(x.Key) + "]" + exprString(x.Value)
+	case *ast.ChanType:
+		return "chan " + exprString(x.Value)
+	case *ast.InterfaceType:
+		return "interface{}"
+	case *ast.StructType:
+		return "struct{}"
 	}
-	return fmt.Sprintf("%T", e)
+	return "?"
 }
 
 // derefsParam: does the expression select a field through a request parameter (p.F, p.F.G,
@@ -905,6 +959,12 @@ func (t *lpFn) exprEvents(e ast.Node) []*lpProg {
 			// arguments and receiver first
 			for _, a := range x.Args {
 				ps = append(ps, t.exprEvents(a)...)
+			}
+			if id, ok := x.Fun.(*ast.Ident); ok && id.Name == "close" && len(x.Args) == 1 {
+				if _, shadow := t.env[id.Name]; !shadow {
+					ps = append(ps, t.closeEv(x))
+					return false
+				}
 			}
 			if lit, ok := x.Fun.(*ast.FuncLit); ok { // immediately invoked literal
 				ps = append(ps, t.litCall(lit))
@@ -1137,7 +1197,28 @@ func (t *lpFn) send(x *ast.SendStmt) *lpProg {
 	t.nSend++
 	id := len(t.c.sends)
 	t.c.sends = append(t.c.sends, name)
+	// the class of the channel: its element type, else the type of the value sent
+	cls := ""
+	if ty := t.typeOf(x.Chan); ty != nil && ty.kind == "chan" {
+		cls = ty.ref
+	} else if ty := t.typeOf(x.Value); ty != nil && ty.kind == "named" {
+		cls = ty.ref
+	}
+	t.c.sendCls = append(t.c.sendCls, cls)
 	return &lpProg{kind: "send", n: id}
+}
+
+func (t *lpFn) closeEv(x *ast.CallExpr) *lpProg {
+	name := fmt.Sprintf("%s@%d", t.f.key, t.nClose)
+	t.nClose++
+	id := len(t.c.closes)
+	t.c.closes = append(t.c.closes, name)
+	cls := ""
+	if ty := t.typeOf(x.Args[0]); ty != nil && ty.kind == "chan" {
+		cls = ty.ref
+	}
+	t.c.closeCls = append(t.c.closeCls, cls)
+	return &lpProg{kind: "close", n: id}
 }
 
 // clauses: switch / select bodies: one of the clauses (or none, when there is no default).
@@ -1225,7 +1306,11 @@ func (t *lpFn) loop(init ast.Stmt, cond ast.Expr, post ast.Stmt, rng *ast.RangeS
 		// element types
 		tx := t.typeOf(rng.X)
 		if id, ok := rng.Key.(*ast.Ident); ok && id.Name != "_" {
-			t.env[id.Name] = &lpType{kind: "other"}
+			if tx != nil && tx.kind == "map" && tx.key != nil {
+				t.env[id.Name] = tx.key
+			} else {
+				t.env[id.Name] = &lpType{kind: "other"}
+			}
 		}
 		if id, ok := rng.Value.(*ast.Ident); ok && id.Name != "_" {
 			if tx != nil && (tx.kind == "map" || tx.kind == "slice") && tx.elem != nil {
@@ -1275,6 +1360,12 @@ func (t *lpFn) deferStmt(x *ast.DeferStmt) *lpProg {
 	if op, isLock := t.lockOp(x.Call); isLock {
 		if op != "" {
 			ps = append(ps, &lpProg{kind: "defer", op: op})
+		}
+		return seqOf(ps)
+	}
+	if id, ok := x.Call.Fun.(*ast.Ident); ok && id.Name == "close" && len(x.Call.Args) == 1 {
+		if ty := t.typeOf(x.Call.Args[0]); ty != nil && ty.kind == "chan" && analysedClass(ty.ref) {
+			c.fail(t.f.fset, x.Pos(), "%s: deferred close of a channel of %s", t.f.key, ty.ref)
 		}
 		return seqOf(ps)
 	}
@@ -1342,6 +1433,8 @@ func (p *lpProg) coq(indent string) string {
 		return fmt.Sprintf("PCall %d", p.n)
 	case "send":
 		return fmt.Sprintf("PSend %d", p.n)
+	case "close":
+		return fmt.Sprintf("PClose %d", p.n)
 	case "panic":
 		return "PPanic"
 	case "ret":
@@ -1386,6 +1479,20 @@ func (c *lpCtx) render() string {
 	sb.WriteString("Definition send_sites : list (Z * list Z) := [\n")
 	for i, s := range c.sends {
 		fmt.Fprintf(&sb, "  (%d, %s) (* %s *)%s\n", i, coqStr(s), s, sepIf(i+1 < len(c.sends)))
+	}
+	sb.WriteString("].\n(* class of the channel of each send site: the element type (empty when unknown) *)\n")
+	sb.WriteString("Definition send_classes : list (Z * list Z) := [\n")
+	for i, s := range c.sendCls {
+		fmt.Fprintf(&sb, "  (%d, %s) (* %s : chan %s *)%s\n", i, coqStr(s), c.sends[i], s, sepIf(i+1 < len(c.sendCls)))
+	}
+	sb.WriteString("].\n(* channel closes: site id, function@ordinal; and the class of the channel closed *)\n")
+	sb.WriteString("Definition close_sites : list (Z * list Z) := [\n")
+	for i, s := range c.closes {
+		fmt.Fprintf(&sb, "  (%d, %s) (* %s *)%s\n", i, coqStr(s), s, sepIf(i+1 < len(c.closes)))
+	}
+	sb.WriteString("].\nDefinition close_classes : list (Z * list Z) := [\n")
+	for i, s := range c.closeCls {
+		fmt.Fprintf(&sb, "  (%d, %s) (* %s : chan %s *)%s\n", i, coqStr(s), c.closes[i], s, sepIf(i+1 < len(c.closeCls)))
 	}
 	sb.WriteString("].\n\n")
 	sb.WriteString("Definition lock_funs : list (Z * prog) := [\n")
